@@ -14,8 +14,26 @@ STUB_SOURCES = {
 }
 
 
+def _param_names(interp, obj):
+    """declared parameter names of a ParametrizedAttribute subclass: the annotated names of the
+    non-stub classes of its MRO, base first (what irdl's param_def collection does)"""
+    from ..values import NativeFn, Obj
+
+    names = []
+    for c in reversed(obj.cls.mro):
+        if c.module.startswith("xdsl."):
+            continue
+        for n, _ in getattr(c, "annotations", []):
+            if n not in names and n not in ("name",):
+                names.append(n)
+    return names
+
+
 def install_stubs(I):
+    from ..values import NativeFn
+
     I.native_modules["numpy"] = numpy_namespace(I)
+    I.native_modules["pyvc.stubhelpers"] = dict(param_names=NativeFn(_param_names, "param_names"))
     for mod, fn in STUB_SOURCES.items():
         p = os.path.join(SRC, fn)
         if os.path.exists(p):
